@@ -66,14 +66,33 @@ func VerifC07(args []string) {
 			w1.useAvail = false
 			e.Eval(&Ctx{VariableFetcher: &vfFetcher{w: w1}})
 			vfDrain(e)
-			d1 := Dump(e)
-			t1 := DumpTable(e, false)
-			t2 := DumpTable(e, true)
+			Dump(e)
+			DumpTable(e, false)
+			DumpTable(e, true)
 			vfReach("evaluated")
 			vfAssert(vfFrozenWrites() == 0, "evaluation / dumping wrote into the compiled program under "+opts)
 			vfAssert(vfGlobalWrites() == 0, "evaluation / dumping wrote a package variable under "+opts)
-			vfAssert(Dump(e) == d1 && DumpTable(e, false) == t1 && DumpTable(e, true) == t2, "Dump / DumpTable are not stable under "+opts)
 			vfUnfreeze()
+			// native replay only (built with -race): the same calls from several goroutines at once, each
+			// with its own context; a write into shared memory shows as a data race
+			vfConcurrently(func(g int) {
+				vals := map[string]Value{}
+				for name, v := range w1.vars {
+					if v.loaded {
+						vals[name] = v.val
+					}
+				}
+				ctx := &Ctx{VariableFetcher: MapVarFetcher(vals)}
+				if g%2 == 0 {
+					e.Eval(ctx)
+					e.TryEval(ctx)
+				} else {
+					Dump(e)
+					DumpTable(e, false)
+					DumpTable(e, true)
+					e.Eval(ctx)
+				}
+			}, e, src)
 			continue
 		}
 		vfCurWorld = w1
